@@ -445,7 +445,7 @@ pub fn check_init(ctx: &Ctx, d: &InitDesc) -> Vec<Viol> {
             cj(),
         ));
     }
-    let mut check_back = |wire: &[u8], label: &str, out: &mut Vec<Viol>| {
+    let check_back = |wire: &[u8], label: &str, out: &mut Vec<Viol>| {
         let mut buf = vec![0x5au8; wire.len() + 65536];
         buf[..wire.len()].copy_from_slice(wire);
         match catch(|| InitMsg::verif_read_from(&buf, &[[7u8; 32], pk])) {
